@@ -76,7 +76,16 @@ def _int_arm(cls):
                 return 'returns', arm, mem
             if has_raise and not has_ret:
                 return 'raises', arm, mem
-            return 'falls-to-other-arm', arm, mem
+            tail = fn.body[-1]
+            if isinstance(tail, ast.Return) and isinstance(tail.value, ast.Name) and any(
+                    isinstance(n, ast.Assign) and any(A.is_name(t, tail.value.id) for t in n.targets) for n in A.walk_stmts(body)):
+                return 'returns', arm, mem      # the arm computes the value that the common tail returns
+            rebinds = any(isinstance(n, ast.Assign) and any(A.is_name(t, item) for t in n.targets) for n in A.walk_stmts(body))
+            later = [a2 for a2 in arms if a2 is not arm and a2['types'] and 'str' in a2['types']
+                     and a2['node'].lineno > arm['node'].lineno]
+            if rebinds and later:
+                return 'falls-to-other-arm', arm, mem
+            return 'absent', arm, mem
     # no isinstance dispatch at all: a wrapper that forwards the index unchanged to its input
     if not arms:
         for n in A.walk_local(fn):
@@ -624,6 +633,16 @@ def rule_sx(ctx):
            '(which is what normalises negative indices, steps and bounds)')
     if not ok:
         return
+    for n in A.walk_local(init):
+        if isinstance(n, ast.Assign) and any(A.is_self_attr(t, idx_attr) for t in n.targets):
+            v = n.value
+            fresh = (isinstance(v, ast.Subscript) and isinstance(v.value, ast.Call) and (A.dotted(v.value.func) or '').endswith('arange')) \
+                or (isinstance(v, ast.Call) and not isinstance(v.func, ast.Name)) or isinstance(v, ast.Tuple)
+            alias = isinstance(v, (ast.Name, ast.Attribute)) or (isinstance(v, ast.Call) and A.dotted(v.func) in ('np.asarray', 'numpy.asarray'))
+            rep.ob('SX', K.key(cls, '__init__', 'index-array-is-always-a-private-re-derivation'), fresh and not alias, n,
+                   '' if fresh and not alias else 'self.%s = %s keeps the caller\'s index object: an array that is later '
+                   'modified in place (a reshuffled permutation) changes this slice, and bounds/negatives are not normalised' % (
+                       idx_attr, A.short(v)))
     for name, pred in (
             ('__len__', lambda fn: any(isinstance(r.value, ast.Call) and A.dotted(r.value.func) == 'len'
                                        and A.is_self_attr(r.value.args[0], idx_attr) for r in flow.returns_of(fn))),
@@ -643,6 +662,12 @@ def rule_sx(ctx):
                % (name, idx_attr))
     # loops in __iter__ yield input[idx] with idx the loop variable
     it = cls.own('__iter__').node
+    iterating = [n for n in A.walk_local(it) if (isinstance(n, ast.YieldFrom)) or (
+        isinstance(n, ast.Call) and any(A.is_self_attr(a, INPUT_ATTR) for a in n.args) and (A.dotted(n.func) or '').split('.')[-1] in (
+            'iter', 'islice', 'enumerate', 'zip', 'map', 'list')) or (isinstance(n, ast.For) and A.is_self_attr(n.iter, INPUT_ATTR))]
+    rep.ob('SX', K.key(cls, '__iter__', 'selection-reaches-the-input-by-lookup-only'), not iterating,
+           iterating[0] if iterating else it,
+           '' if not iterating else 'a selecting stage iterates its input (%s): examples outside the selection are evaluated' % A.short(iterating[0], 60))
     for l in A.walk_local(it):
         if isinstance(l, ast.For) and isinstance(l.target, ast.Name):
             for y in A.walk_stmts(l.body):
@@ -674,7 +699,69 @@ def rule_sx(ctx):
                first_input_index(lk), first_input_index(kk)))
 
 
+def rule_na(ctx):
+    rep = ctx.report
+    cls = ctx.repo.cls('core.NumpySerializedList')
+    init = cls.own('__init__').node
+    g = cls.own('__getitem__').node
+    idx = g.args.args[1].arg
+    # writer: _addr = cumsum(lengths of the serialised elements), _lst = concatenation in the same order
+    src_init = [A.src(n) for n in A.walk_local(init) if isinstance(n, ast.Assign)]
+    lens = [c for c in ast.walk(init) if isinstance(c, ast.ListComp) and isinstance(c.elt, ast.Call) and A.dotted(c.elt.func) == 'len'
+            and isinstance(c.generators[0].target, ast.Name) and A.is_name(c.elt.args[0], c.generators[0].target.id)
+            and not c.generators[0].ifs]
+    w_ok = any('cumsum' in s for s in src_init) and bool(lens) and any('concatenate' in s for s in src_init)
+    rep.ob('NA', K.key(cls, '__init__', 'offsets=cumsum(len(serialised))'), w_ok, init,
+           '' if w_ok else 'the offset table must be the cumulative sum of the lengths of the serialised elements, in order')
+    offs = None
+    for n in A.walk_local(init):
+        if isinstance(n, ast.Assign) and A.is_self_attr(n.targets[0]) and 'cumsum' in A.src(n.value):
+            offs = n.targets[0].attr
+    if offs is None:
+        raise AnalysisError('undecidable shape: NumpySerializedList offset table not found')
+    defs = flow.assigned_names(g)
+    sl = [n for n in A.walk_local(g) if isinstance(n, ast.Subscript) and isinstance(n.slice, ast.Slice) and A.is_self_attr(n.value)]
+    ok = False
+    why = 'no slice of the serialised buffer'
+    if len(sl) == 1 and sl[0].slice.lower is not None and sl[0].slice.upper is not None and sl[0].slice.step is None:
+        lo = flow.copy_prop(sl[0].slice.lower, g)
+        hi = flow.copy_prop(sl[0].slice.upper, g)
+
+        def strip_item(e):
+            while isinstance(e, ast.Call) and isinstance(e.func, ast.Attribute) and e.func.attr in ('item', '__int__') and not e.args:
+                e = e.func.value
+            if isinstance(e, ast.Call) and A.dotted(e.func) == 'int' and len(e.args) == 1:
+                e = e.args[0]
+            return e
+        hi = strip_item(hi)
+        hi_ok = isinstance(hi, ast.Subscript) and A.is_self_attr(hi.value, offs) and A.is_name(hi.slice, idx)
+        lo_ok = False
+        if isinstance(lo, ast.IfExp):
+            t, neg = A.strip_not(lo.test)
+            zero_when = None
+            if isinstance(t, ast.Compare) and len(t.ops) == 1 and A.is_name(t.left, idx) and A.int_value(t.comparators[0]) == 0:
+                if isinstance(t.ops[0], ast.Eq):
+                    zero_when = not neg
+                elif isinstance(t.ops[0], ast.NotEq):
+                    zero_when = neg
+            if zero_when is not None:
+                z = lo.body if zero_when else lo.orelse
+                o = strip_item(lo.orelse if zero_when else lo.body)
+                lo_ok = A.int_value(z) == 0 and isinstance(o, ast.Subscript) and A.is_self_attr(o.value, offs) \
+                    and isinstance(o.slice, ast.BinOp) and isinstance(o.slice.op, ast.Sub) and A.is_name(o.slice.left, idx) \
+                    and A.int_value(o.slice.right) == 1
+        ok = hi_ok and lo_ok
+        why = '' if ok else 'element i must be buffer[(0 if i == 0 else offsets[i-1]) : offsets[i]]; found [%s : %s]' % (
+            A.short(lo, 50), A.short(hi, 30))
+    rep.ob('NA', K.key(cls, '__getitem__', 'element=buffer[offsets[i-1]:offsets[i]]'), ok, g, why)
+    ln = cls.own('__len__').node
+    ok = any(isinstance(r.value, ast.Call) and A.dotted(r.value.func) == 'len' and A.is_self_attr(r.value.args[0], offs)
+             for r in flow.returns_of(ln))
+    rep.ob('NA', K.key(cls, '__len__', 'len=len(offsets)'), ok, ln, '')
+
+
 def run(ctx):
+    rule_na(ctx)
     rule_k0(ctx)
     rule_k1(ctx)
     rule_k2(ctx)
